@@ -223,6 +223,9 @@ func genReconn(r *Rng, prop string) *Scenario {
 	case "C03":
 		cfg.DirectQoS0 = false
 		nreq = int(r.between(2, 12))
+		if r.chance(0.25) {
+			cfg.ResponseTimeoutUs = r.pickI(2000, 3000, 5000)
+		}
 		cfg.AlwaysResub = r.chance(0.3) // re-subscriptions compete with queued requests for the wire
 	case "C08":
 		kindW = []int{2, 5, 4}
@@ -399,6 +402,9 @@ func genReconn(r *Rng, prop string) *Scenario {
 		default:
 			w = []int{5, 5, 3, 2, 2, 2, 1, 2, 1, 1, 0, 0, 0}
 		}
+		if prop == "C03" && cfg.ResponseTimeoutUs != 0 {
+			w[10], w[11] = 4, 2 // acknowledgements that do not come in time on a link that stays up
+		}
 		if cfg.TimeoutUs == 0 {
 			w[6] = 0 // connackNever needs a connect timeout
 		}
@@ -571,11 +577,37 @@ func genReconn(r *Rng, prop string) *Scenario {
 		// mistaken for the answer to the next keep-alive ping
 		rt := cfg.LatC2BUs + cfg.LatB2CUs
 		for i := 0; i < int(r.between(1, 3)); i++ {
-			sc.Ops = append(sc.Ops, Op{AtUs: connectAt + 3*(rt+cfg.DialLatUs) + r.between(0, lastOp+maxBackoff+20000), Actor: 7 + i, Kind: "ping", CtxTimeoutUs: r.between(1, rt-1)})
+			at := connectAt + 3*(rt+cfg.DialLatUs) + r.between(0, lastOp+maxBackoff+20000)
+			sc.Ops = append(sc.Ops, Op{AtUs: at, Actor: 7 + i, Kind: "ping", CtxTimeoutUs: r.between(1, rt-1)})
+			if r.chance(0.3) {
+				// ... or one whose context is already cancelled when Ping is called
+				sc.Ops[len(sc.Ops)-1].CtxTimeoutUs = 0
+				sc.Ops = append(sc.Ops, Op{AtUs: at - 1, Actor: -1, Kind: "cancel", Target: len(sc.Ops) - 1})
+			}
 		}
 	}
 	if prop == "C13" && !cfg.EarlyReply && r.chance(0.25) {
 		cfg.Yields = map[string]int64{"app.transportClose": r.pickI(10, 100, 500)}
+	}
+	if prop == "C13" && !cfg.EarlyReply && r.chance(0.1) {
+		// a client that keeps sending: QoS 0 publishes more often than half the
+		// ping interval for the whole run (outbound traffic is no sign of life of
+		// the peer)
+		step := cfg.PingIntervalUs / 3
+		end := lastOp + maxBackoff + 20000
+		for f := range sc.Faults {
+			if sc.Faults[f].Kind == "silentFrom" && sc.Faults[f].AtUs+3*cfg.PingIntervalUs+cfg.TimeoutUs > end {
+				end = sc.Faults[f].AtUs + 3*cfg.PingIntervalUs + cfg.TimeoutUs
+			}
+		}
+		n := 0
+		for at := connectAt + step; at < end && n < 150; at += step {
+			n++
+			sc.Ops = append(sc.Ops, Op{AtUs: at, Actor: 9, Kind: "publish", QoS: 0, Topic: "a", Token: fmt.Sprintf("k%d", n)})
+		}
+		if end > lastOp {
+			lastOp = end
+		}
 	}
 	if prop == "C13" && !cfg.EarlyReply && r.chance(0.12) {
 		// aimed: an application Ping abandoned by its context, its late PINGRESP
@@ -593,6 +625,24 @@ func genReconn(r *Rng, prop string) *Scenario {
 		lastOp = tA
 	}
 
+	if prop == "C09" && r.chance(0.04) {
+		// aimed: on a healthy, quiet connection the application disconnects through
+		// the BaseClient it got from Client(), below the reconnecting wrapper: a
+		// connection that ended on purpose (Err() == nil) is not replaced
+		cfg.Yields, cfg.EarlyReply = nil, false
+		sc.Faults = nil
+		var ops []Op
+		for _, op := range sc.Ops {
+			if op.Kind == "connect" || op.Kind == "publish" || op.Kind == "subscribe" || op.Kind == "unsubscribe" {
+				ops = append(ops, op)
+			}
+		}
+		sc.Ops = ops
+		sc.Ops[0].CtxTimeoutUs = 0
+		at := lastOp + 3*(cfg.LatC2BUs+cfg.LatB2CUs+cfg.DialLatUs) + r.between(2000, 6000)
+		sc.Ops = append(sc.Ops, Op{AtUs: at, Actor: 3, Kind: "disconnect", Token: "base"})
+		lastOp = at
+	}
 	if prop == "C08" && r.chance(0.06) {
 		// aimed: the re-subscription requested for connection 2 (session lost) is
 		// still waiting behind a parked task when connection 2 dies and connection
